@@ -622,6 +622,14 @@ func genC13(h *H) {
 				pp := pfx
 				mut("key-prefix", func(b []byte) { b[45] = byte(pp) })
 			}
+			if key.IsPrivate() && !h.once["c13-sweep"] {
+				// once per run: the private key swept around N digit by digit (64- and 32-bit digits), deterministic
+				h.once["c13-sweep"] = true
+				for _, v := range append(chainSweep(curveN, 64, 4), chainSweep(curveN, 32, 8)...) {
+					kk := be32(v)
+					mut("private-boundary-sweep", func(b []byte) { copy(b[46:78], kk) })
+				}
+			}
 			if key.IsPrivate() {
 				for _, kv := range [][]byte{make([]byte, 32), be32(curveN), be32(new(bigInt).Sub(curveN, bigOne)), bytesRepeat(0xff, 32), be32(bigOne),
 					// around N digit by digit (a word-wise comparison with N that drops or mis-orders a word)
